@@ -3,7 +3,7 @@
    API half (which exception classes can escape validate()) is decided by enumeration of failure
    causes on the real code - see DESIGN.md. *)
 From Coq Require Import List NArith String Bool.
-From Verif Require Import Gen.T3 Mini.Cli Mini.CliProofs.
+From Verif Require Import Gen.T3 Mini.Cli Mini.CliProofs Closure.Worklist Closure.WorklistProofs Gen.T4.
 Import ListNotations.
 Open Scope string_scope.
 
@@ -32,3 +32,14 @@ Print Assumptions C16_status_one.
 Theorem C16_documented_families : family_codes_ok = true.
 Proof. exact family_codes_computed. Qed.
 Print Assumptions C16_documented_families.
+
+(* RecursionError is not a documented channel: the closures over rdfs:subClassOf are computed by the work-list
+   programs generated from pyshacl/rdfutil/closure.py, which terminate with a result on every graph (no bound on the
+   length of a chain), and no call of rdflib's recursive closure generators is left under pyshacl/. *)
+Theorem C16_closures_total : forall g pred start,
+  (exists r, run_on transitive_subjects_prog g pred start = Some r) /\ (exists r, run_on transitive_objects_prog g pred start = Some r).
+Proof. exact closures_total. Qed.
+Print Assumptions C16_closures_total.
+
+Example C16_no_recursive_closure_left : recursive_closure_uses = [].
+Proof. reflexivity. Qed.
